@@ -57,14 +57,15 @@ def element_path(s):
             def process_message(self, msg, sender=None):
                 pass
         cls = type("NumDrv", (Driver,), {"name": "NUMDEV", "main": Group("MAIN", vectors={
-            "nv": NumberVector("NV", elements={"e": Number("E", default=0, format="%f"), "m": Number("M", default=0, format="%.6m")})})})
+            "nv": NumberVector("NV", elements={"e": Number("E", default=0, format="%f"), "m": Number("M", default=0, format="%.6m"),
+                                               "d": Number("D", default=0, format="%d")})})})
         _drv.append(cls(router=Router()))
     drv = _drv[0]
-    els = [drv.main.nv._elements["e"], drv.main.nv._elements["m"]]
+    els = [drv.main.nv._elements["e"], drv.main.nv._elements["m"], drv.main.nv._elements["d"]]
     for el in els:
         el._value = SENTINEL
-    xml = ('<newNumberVector device="NUMDEV" name="NV"><oneNumber name="E">%s</oneNumber><oneNumber name="M">%s</oneNumber></newNumberVector>'
-           % (escape(s), escape(s)))
+    xml = ('<newNumberVector device="NUMDEV" name="NV"><oneNumber name="E">%s</oneNumber><oneNumber name="M">%s</oneNumber><oneNumber name="D">%s</oneNumber></newNumberVector>'
+           % (escape(s), escape(s), escape(s)))
     try:
         msg = IndiMessage.from_string(xml)
     except Exception:  # noqa
@@ -91,5 +92,5 @@ def run_case(c):
         return {"status": "ok", "text": s, "valid": accepted(s), "back": parse(s, c["fmt"]),
                 "back_other": parse(s, "%f" if "m" in c["fmt"] else "%.6m")}
     s = c["text"]
-    return {"status": "ok", "valid": accepted(s), "as_f": parse(s, "%f"), "as_m": parse(s, "%.3m"), "as_m9": parse(s, "%12.9m"),
+    return {"status": "ok", "valid": accepted(s), "as_f": parse(s, "%f"), "as_m": parse(s, "%.3m"), "as_m9": parse(s, "%12.9m"), "as_d": parse(s, "%d"), "as_d5": parse(s, "%+05d"),
             "as_elem": element_path(s)}
